@@ -111,7 +111,7 @@ def multitask_epoch_task(T, j):
 
 
 for _j in (0, 1):
-    add_task(['C01', 'C05', 'C10', 'C18'], f'multitask_bcd:_bcd_epoch(_sparse)[ws=[{_j}]]', multitask_epoch_task, strength='B', j=_j)
+    add_task(['C01', 'C05', 'C10', 'C18', 'C20'], f'multitask_bcd:_bcd_epoch(_sparse)[ws=[{_j}]]', multitask_epoch_task, strength='B', j=_j)
 
 
 def group_epoch_task(T, g, positive):
@@ -174,7 +174,7 @@ def group_epoch_task(T, g, positive):
 
 
 for _g in (0, 1):
-    add_task(['C01', 'C05', 'C10', 'C18', 'C19'], f'group_bcd:_bcd_epoch(_sparse)[ws=[{_g}],positive=False]', group_epoch_task,
+    add_task(['C01', 'C05', 'C10', 'C18', 'C19', 'C20'], f'group_bcd:_bcd_epoch(_sparse)[ws=[{_g}],positive=False]', group_epoch_task,
              strength='B', g=_g, positive=False)
 
 
@@ -249,7 +249,7 @@ def gram_epoch_task(T, greedy):
 
 
 for _gr in (False, True):
-    add_task(['C01', 'C19'], f'gram_cd:_gram_cd_epoch[greedy={_gr}]', gram_epoch_task, strength='B', greedy=_gr,
+    add_task(['C01', 'C19', 'C20'], f'gram_cd:_gram_cd_epoch[greedy={_gr}]', gram_epoch_task, strength='B', greedy=_gr,
              tier=('thorough' if _gr else 'quick'))
 
 
@@ -346,5 +346,144 @@ def line_search_task(T, sparse, fit_intercept):
 
 for _sp in (False, True):
     for _fi in (False, True):
-        add_task(['C01', 'C03', 'C10'], f'prox_newton:_backtrack_line_search{"_s" if _sp else ""}[fit_intercept={_fi}]', line_search_task,
+        add_task(['C01', 'C03', 'C10', 'C20'], f'prox_newton:_backtrack_line_search{"_s" if _sp else ""}[fit_intercept={_fi}]', line_search_task,
                  strength='B', sparse=_sp, fit_intercept=_fi)
+
+
+def group_line_search_task(T, fit_intercept):
+    """group_prox_newton._backtrack_line_search: every subscript inside the arrays (CPython raises IndexError where numba
+    would silently read outside), Xw == X w + b preserved; 1 sample, 3 features in groups {1,0},{2}, budget 2 halvings"""
+    import z3
+    from pv import sym, symrun
+    from pv.sproof import check_contract, zpre
+    from .c06 import Env
+    from .catalog import objarr
+    symrun.install()
+    import skglm.solvers.group_prox_newton as gm
+    LG = symrun.get('skglm.datafits.group', 'LogisticGroup')
+    WG = symrun.get('skglm.penalties.block_separable', 'WeightedGroupL2')
+    n, p = 1, 3
+    e = Env(n, p)
+    R = sym.SymReal
+    a = z3.Real('alpha')
+    b0 = z3.Real('b')
+    dl = [z3.Real(f'd{k}') for k in range(p)] + [z3.Real('db')]
+    L = sym.lift
+    fi = 1 if fit_intercept else 0
+
+    def run():
+        old = gm.MAX_BACKTRACK_ITER
+        gm.MAX_BACKTRACK_ITER = 2
+        try:
+            X = e.symX()
+            y = np.array([1.0], dtype=object)
+            w0 = np.array([R(t) for t in e.w] + ([R(b0)] if fi else []), dtype=object)
+            w = w0.copy()
+            Xw = np.array([sum((X[i, k] * w0[k] for k in range(p)), R(z3.RealVal(0))) + (w0[p] if fi else 0.) for i in range(n)], dtype=object)
+            ws = np.array([1, 0])
+            # stacked direction in working-set order: group 1 = feature 2, group 0 = features (1, 0), then the intercept
+            order = [2, 1, 0]
+            delta = np.array([R(dl[k]) for k in order] + ([R(dl[p])] if fi else []), dtype=object)
+            Xd = np.array([sum((X[i, k] * R(dl[k]) for k in range(p)), R(z3.RealVal(0))) + (R(dl[p]) if fi else 0.) for i in range(n)], dtype=object)
+            df = LG(GP, GI)
+            pen = WG(R(a), objarr([1.0, 1.0]), GP, GI, False)
+            gm._backtrack_line_search(X, y, w, Xw, fit_intercept, df, pen, delta, Xd, ws)
+            return w, Xw
+        finally:
+            gm.MAX_BACKTRACK_ITER = old
+
+    def post(out, pth):
+        w, Xw = out
+        return [(f'Xw==Xw+b[{i}]', [], L(Xw[i]) == z3.Sum([e.X[i][k] * L(w[k]) for k in range(p)]) + (L(w[p]) if fi else 0)) for i in range(n)]
+    check_contract(T, 'line-search', run, zpre([a > 0]), post, strength='B', safety=False,
+                   replay=dict(fn='contracts.kernels2:replay_group_line_search', args=dict(fit_intercept=fit_intercept)))
+
+
+for _fi in (False, True):
+    add_task(['C20', 'C01'], f'group_prox_newton:_backtrack_line_search[fit_intercept={_fi}]', group_line_search_task, strength='B',
+             fit_intercept=_fi)
+
+
+def replay_group_line_search(args, model):
+    """native, with numba's own bounds checking switched on in a fresh interpreter"""
+    import subprocess
+    import sys
+    code = '''
+import numpy as np
+from skglm.solvers.group_prox_newton import _backtrack_line_search
+from skglm.datafits import LogisticGroup
+from skglm.penalties import WeightedGroupL2
+from skglm.utils.jit_compilation import compiled_clone
+gp = np.array([0, 2, 3], dtype=np.int32); gi = np.array([1, 0, 2], dtype=np.int32)
+fi = %r
+rng = np.random.RandomState(0)
+X = np.asfortranarray(rng.randn(4, 3)); y = np.sign(rng.randn(4)); w = rng.randn(3 + fi); Xw = X @ w[:3] + (w[3] if fi else 0.)
+delta = rng.randn(3 + fi); Xd = X[:, [2, 1, 0]] @ delta[:3] + (delta[3] if fi else 0.)
+_backtrack_line_search(X, y, w, Xw, fi, compiled_clone(LogisticGroup(gp, gi)), compiled_clone(WeightedGroupL2(0.1, np.ones(2), gp, gi)),
+                       delta, Xd, np.array([1, 0]))
+print("ok")
+''' % bool(args['fit_intercept'])
+    import os
+    env = dict(os.environ, NUMBA_BOUNDSCHECK='1')
+    env.pop('NUMBA_DISABLE_JIT', None)
+    p = subprocess.run([sys.executable, '-c', code], capture_output=True, text=True, env=env, timeout=600)
+    bad = 'IndexError' in p.stderr or p.returncode != 0
+    return dict(confirmed=bool(bad), detail=(p.stderr[-400:] if bad else 'completed under NUMBA_BOUNDSCHECK=1'), inputs=args)
+
+
+def fixpoint_dist_task(T, kind):
+    """solvers.common.dist_fix_point_cd / dist_fix_point_bcd on a working set smaller than the index range (ws = [1]):
+    out[idx] == |w_j - prox(w_j - grad_idx / L_idx, 1 / L_idx, j)| (norm for groups), L_idx == 0 => 0; arrays indexed by POSITION
+    in the working set (lipschitz_ws, grad_ws) are never indexed by the feature / group id"""
+    import z3
+    from pv import sym, symrun
+    from pv.sproof import check_contract, zpre
+    symrun.install()
+    C = 'skglm.solvers.common'
+    R = sym.SymReal
+    L = sym.lift
+    lip = z3.Real('lip')
+    if kind == 'cd':
+        fn = symrun.get(C, 'dist_fix_point_cd')
+        w = [z3.Real(f'w{k}') for k in range(3)]
+        g = z3.Real('g')
+
+        def run():
+            pen = StubPenalty()
+            out = fn(np.array([R(t) for t in w], dtype=object), np.array([R(g)], dtype=object), np.array([R(lip)], dtype=object),
+                     None, pen, np.array([2]))
+            return out, pen.calls
+
+        def post(out, pth):
+            o, calls = out
+            if not calls:
+                return [('zero-curvature=>0', [], z3.And(lip == 0, L(o[0]) == 0))]
+            val, step, j, res = calls[0]
+            d = w[2] - L(res)
+            return [('prox-called-on-(w_j-g/L,1/L,j)', [], z3.And(z3.BoolVal(int(j) == 2), L(step) * lip == 1, (L(val) - w[2]) * lip == -g)),
+                    ('==|w_j-prox|', [], L(o[0]) == z3.If(d >= 0, d, -d)), ('length', [], z3.BoolVal(len(o) == 1))]
+        check_contract(T, 'dist_fix_point_cd', run, zpre([lip >= 0]), post, strength='B')
+    else:
+        fn = symrun.get(C, 'dist_fix_point_bcd')
+        w = [z3.Real(f'w{k}') for k in range(3)]
+        gg = [z3.Real('g0')]                      # ws = [1]: group 1 = feature {2}
+
+        def run():
+            pen = StubPenalty(GP, GI)
+            out = fn(np.array([R(t) for t in w], dtype=object), np.array([R(t) for t in gg], dtype=object),
+                     np.array([R(lip)], dtype=object), None, pen, np.array([1]))
+            return out, pen.calls
+
+        def post(out, pth):
+            o, calls = out
+            if not calls:
+                return [('zero-curvature=>0', [], z3.And(lip == 0, L(o[0]) == 0))]
+            val, step, gidx, res = calls[0]
+            d = w[2] - L(res[0])
+            return [('prox-called-on-(w_g-g/L,1/L,g)', [], z3.And(z3.BoolVal(int(gidx) == 1), L(step) * lip == 1, (L(val[0]) - w[2]) * lip == -gg[0])),
+                    ('==||w_g-prox||', [], z3.And(L(o[0]) >= 0, L(o[0]) * L(o[0]) == d * d))]
+        check_contract(T, 'dist_fix_point_bcd', run, zpre([lip >= 0]), post, strength='B')
+
+
+for _k in ('cd', 'bcd'):
+    add_task(['C01', 'C08', 'C20'], f'common:dist_fix_point_{_k}[ws=[last]]', fixpoint_dist_task, strength='B', kind=_k)
